@@ -153,7 +153,7 @@ private def tInt : Ty := .s (.basic .int)
 private def tStr : Ty := .s (.basic .string)
 private def tN0 : Ty := .s (.named ⟨0, .int, [0]⟩)
 
-/-- F11 (repaired): `for 1 {}` — the condition test records the error and leaves the clause; before the repair
+/-- F11 (repaired by 3004c84): `for 1 {}` — the condition test records the error and leaves the clause; before the repair
     `cond.rval.Bool()` ran on the constant and panicked. Regression examples: rejected with an error, in the domain. -/
 def progConstCond : Prog := main [.forS (.lit .int 1 false) .nil]
 theorem const_cond_panic_witness : verdictY progConstCond = .err ∧ verdictG progConstCond = .err ∧ DomP progConstCond = true := by
